@@ -146,3 +146,42 @@ package icmp
 //@   props C03 C14 C16 C06 C08 C20
 //@   observe Results
 //@   entry row forward: [call Results(recv.Resulter) as (c)] when ret == c -> exit
+
+// option constructors: each returns its own option closure over exactly its argument (verified here, inlined at call sites)
+//@ func WithCode
+//@   inline
+//@   props C05
+//@   ensures closureof(ret, "WithCode$1") && capt(ret, "code") == code
+//@ func WithIPFlags
+//@   inline
+//@   props C05
+//@   ensures closureof(ret, "WithIPFlags$1") && capt(ret, "flags") == flags
+//@ func WithIPProtocol
+//@   inline
+//@   props C05
+//@   ensures closureof(ret, "WithIPProtocol$1") && capt(ret, "proto") == proto
+//@ func WithIPTotalLength
+//@   inline
+//@   props C05
+//@   ensures closureof(ret, "WithIPTotalLength$1") && capt(ret, "length") == length
+//@ func WithPayload
+//@   inline
+//@   props C05
+//@   ensures closureof(ret, "WithPayload$1") && capt(ret, "payload") == payload
+//@ func WithTTL
+//@   inline
+//@   props C05
+//@   ensures closureof(ret, "WithTTL$1") && capt(ret, "ttl") == ttl
+//@ func WithType
+//@   inline
+//@   props C05
+//@   ensures closureof(ret, "WithType$1") && capt(ret, "typ") == typ
+//@ func WithVPNmode
+//@   inline
+//@   props C05
+//@   ensures closureof(ret, "WithVPNmode$1") && capt(ret, "vpnMode") == vpnMode
+
+//@ func (*PacketProcessor).Results
+//@   props C03 C14 C16
+//@   observe Chan
+//@   entry row chan: [call Chan(p.results) as (c)] when ret == c -> exit
